@@ -347,6 +347,9 @@ func (mbs *metadataPartStorage) TransitionObjectStorageClass(ctx context.Context
 				return storage.ErrPreconditionFailed
 			}
 		}
+		if opts != nil && opts.IfMatchLastModifiedTime != nil && !object.LastModified.Equal(*opts.IfMatchLastModifiedTime) {
+			return storage.ErrPreconditionFailed
+		}
 
 		// Parts already in the target store (e.g. the class was only remapped
 		// in config, or the classes share a store) keep their ids and are
